@@ -73,8 +73,8 @@ type qDir struct {
 
 func (d qDir) String() string {
 	a := d.action
-	if a == "probe" {
-		a = "nop" // the probe is an oracle of the harness, not an event of the model
+	if a == "probe" || a == "blockother" {
+		a = "nop" // the probe is an oracle of the harness, not an event of the model; nor is a list not covering the destination
 	}
 	switch d.point {
 	case "pre", "ret":
@@ -99,6 +99,11 @@ type qScn struct {
 	// kind of a case that is not a single scripted query ("wrap")
 	dest, replyForm, special string
 	wrapN                    int
+	// blocklist configured at NewServer: "" = none (or, with blocked, the single range of the destination), "empty" = a
+	// list without ranges, "other" = ranges around but not covering the destination, "multi" (with blocked) = the
+	// destination's range among others.  Not part of the model line: a list that does not cover the destination is no list.
+	blcfg string
+	ov    *qOverlap // special "overlap" (query_more.go)
 }
 
 func (sc *qScn) lhs(idx int) string {
@@ -186,6 +191,9 @@ type qRun struct {
 var qProbePort int32 = 20000
 
 func (r *qRun) detail() string {
+	if r.sc.blcfg != "" {
+		return fmt.Sprintf("%s rep=%d tag=%s blocklist=%s", r.sc.lhs(r.idx), r.rep, r.sc.tag, r.sc.blcfg)
+	}
 	return fmt.Sprintf("%s rep=%d tag=%s", r.sc.lhs(r.idx), r.rep, r.sc.tag)
 }
 
@@ -241,6 +249,9 @@ func (r *qRun) runPoint(point string, i int) {
 			r.s.SetIPBlockList(blockOf(r.dest.IP))
 		case "nop":
 			time.Sleep(30 * time.Millisecond)
+		case "blockother":
+			// Server.SetIPBlockList with a list that does not cover the destination: no event for the query
+			r.s.SetIPBlockList(qBlocklistOf("other", r.dest.IP))
 		case "probe":
 			if !r.wedged {
 				r.probe()
@@ -358,6 +369,11 @@ func (r *qRun) run() qOutcome {
 	cfg.NodeId[0] = 0x42
 	if sc.blocked {
 		cfg.IPBlocklist = blockOf(r.dest.IP)
+		if sc.blcfg == "multi" {
+			cfg.IPBlocklist = blockOf(append(qOtherIPs(r.dest.IP), r.dest.IP)...)
+		}
+	} else if bl := qBlocklistOf(sc.blcfg, r.dest.IP); bl != nil {
+		cfg.IPBlocklist = bl
 	}
 	s, err := dht.NewServer(cfg)
 	if err != nil {
@@ -583,6 +599,52 @@ func queryScenarios(tier string) []qScn {
 			}
 		}
 	}
+	// ---- a blocklist is configured but does not cover the destination (no ranges at all / ranges around it), or covers it
+	// among other ranges: x closed before / Close inside or after the i-th send / cancellations / write failures / rate policy.
+	// The model line is that of the same case without a list (a list that does not cover the destination is no list).
+	blReps := 4
+	if tier == "thorough" {
+		blReps = 20
+	}
+	for _, bl := range []string{"empty", "other"} {
+		for tries := 0; tries <= 4; tries++ {
+			eff := tries
+			if eff == 0 {
+				eff = 1
+			}
+			t := "bl-" + bl + "-"
+			add(qScn{tries: tries, blcfg: bl, reps: blReps, tag: t + "timeout"})
+			add(qScn{tries: tries, blcfg: bl, reps: blReps, tag: t + "closed-before", closed0: true})
+			add(qScn{tries: tries, blcfg: bl, reps: blReps, tag: t + "closed-and-cancelled", closed0: true, script: []qDir{d("pre", 0, "cancel")}})
+			add(qScn{tries: tries, blcfg: bl, reps: blReps, tag: t + "cancel-before", script: []qDir{d("pre", 0, "cancel")}})
+			for i := 1; i <= eff; i++ {
+				add(qScn{tries: tries, blcfg: bl, reps: blReps, tag: t + "reply-after-send", script: []qDir{d("g", i, "reply")}})
+				add(qScn{tries: tries, blcfg: bl, reps: blReps, tag: t + "close-in-send", script: []qDir{d("w", i, "close")}})
+				add(qScn{tries: tries, blcfg: bl, reps: blReps, tag: t + "close-after-send", script: []qDir{d("g", i, "close")}})
+				add(qScn{tries: tries, blcfg: bl, reps: blReps, tag: t + "cancel-then-close", script: []qDir{d("g", i, "cancel"), d("g", i, "close")}})
+				add(qScn{tries: tries, blcfg: bl, reps: blReps, tag: t + "covering-list-installed-after-send", script: []qDir{d("g", i, "block")}})
+				add(qScn{tries: tries, blcfg: bl, reps: blReps, tag: t + "write-fails", fail: i})
+			}
+		}
+	}
+	for tries := 0; tries <= 4; tries++ {
+		// the list is installed later (SetIPBlockList), on an open or a closed server; the covering range is one of several
+		add(qScn{tries: tries, reps: blReps, tag: "bl-installed-on-closed-server", closed0: true, script: []qDir{d("pre", 0, "blockother")}})
+		add(qScn{tries: tries, reps: blReps, tag: "bl-installed-before", script: []qDir{d("pre", 0, "blockother")}})
+		add(qScn{tries: tries, reps: 2, tag: "bl-installed-then-close-after-send", script: []qDir{d("g", 1, "blockother"), d("g", 1, "close")}})
+		add(qScn{tries: tries, reps: 2, tag: "bl-installed-then-close-in-send", script: []qDir{d("w", 1, "blockother"), d("w", 1, "close")}})
+		add(qScn{tries: tries, blcfg: "multi", reps: blReps, tag: "bl-multi-blocked", blocked: true})
+	}
+	for _, rl := range []string{"z", "nf", "na", "nfna", "wr", "nw"} {
+		for tries := 1; tries <= 4; tries += 3 {
+			for _, budget := range []int{0, 3} {
+				for _, bl := range []string{"empty", "other"} {
+					add(qScn{tries: tries, rl: rl, budget: budget, blcfg: bl, reps: blReps, tag: "rl-bl-" + bl + "-closed", closed0: true})
+					add(qScn{tries: tries, rl: rl, budget: budget, blcfg: bl, reps: 2, tag: "rl-bl-" + bl + "-close-after-send", script: []qDir{d("g", 1, "close")}})
+				}
+			}
+		}
+	}
 	queryMoreScenarios(tier, add, d)
 	return out
 }
@@ -604,6 +666,7 @@ func queryEngine(seed uint64, tier string, args []string) {
 			i++
 		}
 	}
+	qSeed = seed
 	scs := queryScenarios(tier)
 	if only >= 0 && only < len(scs) {
 		scs = scs[:only+1]
@@ -624,6 +687,11 @@ func queryEngine(seed uint64, tier string, args []string) {
 		sc := &scs[idx]
 		if sc.special == "wrap" {
 			qWrapCase(idx, sc, tier, &base0)
+			out.Flush()
+			continue
+		}
+		if sc.special == "overlap" {
+			qOverlapCase(idx, sc, &base0)
 			out.Flush()
 			continue
 		}
